@@ -235,7 +235,14 @@ impl<'p, 'a> Evaluator<'a, 'p> {
                                 }
                             }
                             PendingThunk::Call { func, args } => {
-                                self.execute_call(&func.view(), args);
+                                // The function comes from user code (e.g. the argument
+                                // of `std.map`): its parameters must be checked.
+                                let func = func.view();
+                                let args: Vec<_> = args.iter().map(Gc::view).collect();
+                                let (_, func_env) = self.get_func_info(&func);
+                                let args =
+                                    self.check_call_thunk_args(&func.params, &args, &[], func_env)?;
+                                self.execute_call(&func, args);
                             }
                         }
                     }
